@@ -694,6 +694,20 @@ pub fn plan_c12(tier: &str, seed: u64) -> Plan {
                     c.expect.push((c.lines.len() - 1, ex("err _", "hdr-altered", &["altered"])));
                 }
             }
+            // the *serialised* header cut short: every number of bytes dropped from the end up to a little more than the
+            // whole metadata field (so that the cut where the encapsulation ends and the field begins is always among
+            // them, whatever the flavour and number of targets), and every short prefix: a strict prefix is not a header
+            if mi < 8 || mi % 8 == 0 {
+                let field = 2 + md.as_ref().map(|m| if m.is_empty() { 0 } else { m.len() + 28 }).unwrap_or(0);
+                for k in 1..=(field + 8) {
+                    c.lines.push(format!("hdr_cut H0 H3 -{k}"));
+                    c.lines.push(format!("hdr_dec U0 H3 {}", ob(ad)));
+                    c.expect.push((c.lines.len() - 1, ex("err _", "hdr-truncated", &["truncated", "serialised"])));
+                }
+                for cut in 0..120 {
+                    c.lines.push(format!("hdr_cut H0 H3 {cut}"));
+                }
+            }
             // serialisation round trip keeps the outcome
             c.lines.push("hdr_tamper H0 H2 roundtrip 0".into());
             c.lines.push(format!("hdr_dec U0 H2 {}", ob(ad)));
@@ -728,7 +742,7 @@ pub fn plan_c12(tier: &str, seed: u64) -> Plan {
         per_line: true,
         cases,
         exhaustive: false,
-        rule: format!("PKE: plaintext lengths 0..70{} and around 4 KiB / 8 KiB, authorised and unauthorised keys, truncation at every length (short plaintexts) or sampled lengths incl. the nonce boundary, bit flips, ciphertext spliced under another encapsulation; header: metadata absent / empty / 1..40 bytes x authentication data absent / empty / short / 33 bytes, decrypted with every authentication-data variant plus a different one, truncation of the metadata ciphertext at every length, bit flips, serialisation round trip; every metadata length 41..300 and the lengths that put the encrypted metadata at 127 / 128 / 16382..16384 / 65535 / 65536 / 70000 bytes (2 MiB and 3 MB in thorough): generated, stored / loaded, opened, and given to the wire model. Every check line is compared with the Lean model AND with what the specification demands; distinct = distinct canonical traces", if thorough { "..300" } else { "" }),
+        rule: format!("PKE: plaintext lengths 0..70{} and around 4 KiB / 8 KiB, authorised and unauthorised keys, truncation at every length (short plaintexts) or sampled lengths incl. the nonce boundary, bit flips, ciphertext spliced under another encapsulation; header: metadata absent / empty / 1..40 bytes x authentication data absent / empty / short / 33 bytes, decrypted with every authentication-data variant plus a different one, truncation of the metadata ciphertext at every length, truncation of the serialised header at every length (given to the wire model as well), bit flips, serialisation round trip; every metadata length 41..300 and the lengths that put the encrypted metadata at 127 / 128 / 16382..16384 / 65535 / 65536 / 70000 bytes (2 MiB and 3 MB in thorough): generated, stored / loaded, opened, and given to the wire model. Every check line is compared with the Lean model AND with what the specification demands; distinct = distinct canonical traces", if thorough { "..300" } else { "" }),
     }
 }
 
